@@ -140,6 +140,10 @@ func (ex *Exec) callFunc(fr *Frame, callee *ssa.Function, binds []Val, args []Va
 		m(ex, fr, callee, args, st, k)
 		return
 	}
+	if pureLib[name] {
+		ex.pureLibCall(name, callee, args, st, k)
+		return
+	}
 	c := vc.prog.contracts.Funcs[name]
 	if c != nil && !c.Inline && !(fr.top && callee == fr.fn && false) {
 		ex.applyContract(fr, c, callee, callee.Signature, args, site, st, k, name)
